@@ -113,8 +113,8 @@ type flags struct{ n, w, e, f bool }
 func init() {
 	var nSeeds int
 	mon.Register(&mon.Check{
-		ID: "C07",
-		Rule: "evaluations = Lint*Ex calls; for each object the full-registry run is compared, lint by lint (status and details), with runs under filtered registries - every lint ALONE (one single-lint registry per lint of the object's kind) and seeded multi-lint filters (name-sorted execution order vs registration order) - plus 'no result for unselected lints' and 'flags of the filtered run are a subset of the full run's'. distinct_nontrivial (de-duplicated by a hash of the DER bytes within each worker process) = distinct objects with >= 1 lint beyond NA that went through the comparison.",
+		ID:          "C07",
+		Rule:        "evaluations = Lint*Ex calls; for each object the full-registry run is compared, lint by lint (status and details), with runs under filtered registries - every lint ALONE (one single-lint registry per lint of the object's kind) and seeded multi-lint filters (name-sorted execution order vs registration order) - plus 'no result for unselected lints' and 'flags of the filtered run are a subset of the full run's'. distinct_nontrivial (de-duplicated by a hash of the DER bytes within each worker process) = distinct objects with >= 1 lint beyond NA that went through the comparison.",
 		Assumptions: []string{"a UTC date change between two compared runs may move only the two clock-reading AIA lints; such differences are dropped"},
 		Setup: func(c *mon.Ctx) error {
 			if err := c07Setup(c); err != nil {
